@@ -274,16 +274,15 @@ Section BlobRules.
                     given_blob <- push_type (HBlob name sp given bargs) ;;
                     self_ty <- var_ty kinds self ;;
                     unify G sp self_ty given_blob ;;;
-                    ret0 <- push_type HUnknown ;;
-                    iterM (fun fe : string * expr =>
-                             '(iret, ety) <- r_expr (afix f) (snd fe) ctx ;;
-                             unify_option G sp (Some ret0) iret ;;;
-                             match flookup (fst fe) given with
-                             | Some (_, ft) => unify G (expr_span (snd fe)) ety ft ;;; ret tt
-                             | None => panic PFieldIndex
-                             end) fields ;;;
+                    ret0 <- foldM (fun (acc : option tyid) (fe : string * expr) =>
+                                     '(iret, ety) <- r_expr (afix f) (snd fe) ctx ;;
+                                     acc' <- unify_option G sp acc iret ;;
+                                     match flookup (fst fe) given with
+                                     | Some (_, ft) => unify G (expr_span (snd fe)) ety ft ;;; ret acc'
+                                     | None => panic PFieldIndex
+                                     end) fields None ;;
                     u <- unify G sp given_blob blob_ty ;;
-                    ret (Some ret0, u)
+                    ret (ret0, u)
                   end
                 | HExtBlob _ _ _ _ _ => fail KExternBlobInstance sp
                 | _ => fail KViolating sp
@@ -407,6 +406,18 @@ Section TupleRules.
       injection H as <- _. cbn [length]. f_equal. eapply IH; eassumption.
   Qed.
 
+  Lemma tuple_fold_length R sp ctx : forall values acc s r s',
+    foldM (fun (acc : option tyid * list tyid) (v : expr) =>
+             '(iret, t) <- r_expr R v ctx ;; r' <- unify_option G sp (fst acc) iret ;; ret (r', snd acc ++ [t])) values acc s
+    = Ok (r, s') -> length (snd r) = (length (snd acc) + length values)%nat.
+  Proof.
+    induction values as [|v l IH]; intros acc s r s' H; cbn [foldM] in H.
+    - injection H as <- _. cbn. lia.
+    - apply bind_inv in H as (acc1 & s1 & H1 & H). apply IH in H. rewrite H.
+      apply bind_inv in H1 as ([iret t] & s2 & _ & H1). apply bind_inv in H1 as (r' & s3 & _ & H1). injection H1 as <- _.
+      cbn [snd length]. rewrite app_length. cbn. lia.
+  Qed.
+
   (* a tuple expression yields a class whose head is a tuple of the same length *)
   Lemma tuple_yields values sp f ctx s r s' :
     wf s -> r_expr (afix f) (ECollection CTuple values sp) ctx s = Ok (r, s') ->
@@ -416,13 +427,12 @@ Section TupleRules.
     destruct f as [|f]; [discriminate|].
     cbn [Tc.afix astep r_expr] in H. unfold expr_body in H.
     apply bind_inv in H as ([er ex] & s1 & H1 & H). cbv beta iota in H1.
-    apply bind_inv in H1 as (ret0 & s2 & _ & H1).
-    apply bind_inv in H1 as (tys & s3 & Hm & H1).
+    apply bind_inv in H1 as ([ret0 tys] & s3 & Hm & H1).
     apply bind_inv in H1 as (t & s4 & Hp & H1). injection H1 as <- <- <-.
     rewrite push_type_eq in Hp. injection Hp as <- <-.
     pose proof (head_push_new (HTuple tys) s3) as Hh.
     rewrite (bind_ok _ _ _ _ _ (find_type_ok _ _ _ Hh)) in H. injection H as <- <-. cbn [snd].
-    exists tys. split; [assumption|]. eapply mapM_length; eassumption.
+    exists tys. split; [assumption|]. exact (tuple_fold_length _ _ _ _ _ _ _ _ Hm).
   Qed.
 
   (* a constant index outside the tuple *)
@@ -662,7 +672,7 @@ Section AccessRules.
     apply bind_inv_pres in H1 as (gb & s4 & _ & W4 & E4 & H1); [|prs|assumption].
     apply bind_inv_pres in H1 as (sty & s4a & _ & W4a & E4a & H1); [|prs|assumption].
     apply bind_inv_pres in H1 as (u4b & s4b & _ & W4b & E4b & H1); [|prs|assumption].
-    apply bind_inv_pres in H1 as (ret0 & s5 & _ & W5 & E5 & H1); [|prs|assumption].
+    assert (W5 : wf s4b) by exact W4b. assert (E5 : ext s4b s4b) by apply ext_refl. set (s5 := s4b) in W5, E5 at 2.
     apply bind_inv_pres in H1 as (u6 & s6 & _ & W6 & E6 & H1); [|pose proof (PA f); prs|assumption].
     apply bind_inv in H1 as (u & s7 & Hu & H1). injection H1 as <- <- <-.
     destruct (unify_result_head _ _ _ _ _ _ _ W6 Hu) as (W7 & E7 & Hru & Heq).
